@@ -320,7 +320,7 @@ impl Action for AbsAction {
     fn execute(&self, arguments: &[Data], _global: &GlobalData) -> Result<Data, String> {
         if arguments.len() == 1 {
             match &arguments[0] {
-                Data::Integer(value) => Ok(Data::Integer(value.abs())),
+                Data::Integer(value) => Ok(Data::Integer(value.saturating_abs())),
                 Data::Double(value) => Ok(Data::Double(value.abs())),
                 _ => Err("Wrong argument type for 'abs'.".to_string()),
             }
@@ -652,8 +652,7 @@ impl Datamodel for RFsmExpressionDatamodel {
         let r = match self.execute_internal(script, false) {
             Ok(val) => match val.arc.lock().unwrap().deref() {
                 Data::Integer(v) => {
-                    // NaN Test
-                    Ok(!(v != v || v.abs() == 0))
+                    Ok(*v != 0)
                 }
                 Data::Double(v) => Ok(!(v != v || v.abs() == 0f64)),
                 Data::Source(s) => Ok(!s.is_empty()),
